@@ -83,7 +83,6 @@ proof('C18',
       'DESIGN.md 5 C18')
 
 for _p, _r in {
-    'C04': 'check not built yet',
 
     'C13': 'check not built yet',
     'C14': 'interleavings of concurrent processes: sequential contract-based VCs cannot quantify over schedules and no '
@@ -158,3 +157,14 @@ bounded('C03',
         'bounded scope; two known findings (dir_archive key aliasing; dir_archive(serialized=False) import-based reader) are listed in '
         'known_findings.json; hdf and sqlalchemy backends are not installed and not covered; no Level-A proof of the archive methods.',
         TECH_B.replace('deal contracts on sidecar wrappers of the real functions', 'run-time contract monitor (dict refinement) on the real archive objects'))
+
+bounded('C04',
+        'Bounded (not a proof): after seeded write histories on 9 persistent archive configurations, the same handle, a fresh handle, a '
+        'fresh interpreter process, a handle rebuilt from .state, copy(), a dill round trip of the handle and a handle obtained after '
+        're-opening twice all read exactly what was written (key types preserved, values equal, values mutated after the store unaffected).',
+        'DESIGN.md 5 C04',
+        'bounded scope; the file system / sqlite file is assumed to show every process the same bytes; three listed findings (source-text '
+        'archives read through import; sqlite handle not picklable); "a re-created decorated function is served from the archive" is checked '
+        'end-to-end under C17; the contract-level obligations of DESIGN.md 5 C04 (state-only-in-store as a frame condition of Level-A '
+        'archive contracts) were not built.',
+        TECH_B.replace('deal contracts on sidecar wrappers of the real functions', 'run-time contract monitor on the real archive objects and fresh interpreter processes'))
